@@ -164,6 +164,9 @@ def element_access(ctx, n):
 def correspondence(ctx):
     from props import c10
     c10.perpendicular_in_plane_stream(ctx, ctx.budget(20, 200), prefix="C04")
+    c10.collinear_collections(ctx, ctx.budget(20, 200), prefix="C04")
+    from props import c17
+    c17.expand_dims_measures_stream(ctx, ctx.budget(8, 80), prefix="C04")      # every position answered on its own
     import glob, json, os
     for f in sorted(glob.glob(os.path.join(os.path.dirname(__file__), "..", "..", "corpus", "C04", "*.json"))):
         replay(ctx, json.load(open(f)))
